@@ -237,7 +237,10 @@ func (d *decoder[T]) kInterfaceNaked(f *decFnInfo) (rvn reflect.Value) {
 			// one of the InterfaceExt ones: json and cbor.
 			// (likely cbor, as json has no tagging support and won't reveal valueTypeExt)
 			if bfn == nil {
+				// a tag nests a value: account for it like a container
+				d.depthIncr()
 				d.decode(&re.Value)
+				d.depthDecr()
 				rvn = rv4iptr(&re).Elem()
 			} else if bfn.ext == SelfExt {
 				rvn = rvZeroAddrK(bfn.rt, bfn.rt.Kind())
